@@ -8,6 +8,7 @@ import re
 
 from .. import common
 from ..common import log
+from . import c15_87c
 
 # --------------------------------------------------------------------------
 # ISA descriptions used by the generator (written from the CPU manuals' mnemonic lists; what the real asl makes of the
@@ -627,7 +628,7 @@ def probe_cli(bdir, wd):
 
 def run(args):
     res = common.Result("C15", args.tier, args.seed, "proof")
-    bdir, audit, proof_problems = common.standard_setup(res, "C15", ["Deco4004", "Deco68", "DisIsa4004", "DisIsa6800"])
+    bdir, audit, proof_problems = common.standard_setup(res, "C15", ["Deco4004", "Deco68", "DisIsa4004", "DisIsa6800", "Deco87C"])
     if bdir is None:
         return res.finish()
     ok = not any(p.startswith("driver does not build") for p in proof_problems)
@@ -836,6 +837,12 @@ def run(args):
     if not cli_ok:
         spec_fail.append(dict(sig="entryaddress-name-form", why="the documented `-entryaddress <address>,<name>` form is rejected", **cli_info))
 
+    # ---- third target: TLCS-870 (vlib/props/c15_87c.py)
+    part87 = c15_87c.run_part(args, bdir, ok)
+    spec_fail += part87["spec_fail"]
+    corr_fail += part87["corr_fail"]
+    proof_problems += part87["proof_problems"]
+
     res.coverage = common.proof_coverage(audit, "C15", [
         "translate/tables.py (OpcodeList[256] of deco4004.c/deco68.c via compiled dumper, InitFields() call list of code4004.c via clang-14 AST)",
         "correspondence: real dasl vs Model.Dis (text, stderr, areas) on generated images and on one image per opcode (differential test)",
@@ -854,12 +861,17 @@ def run(args):
                        "label definition/lookup and operand text parsing are exercised through the real asl, not proved "
                        "(6800: the statement-level parsing of the printed operand forms is modelled in Model/Dis/A6800.lean and compared with the real asl on every sweep instruction)",
                        "6800 instruction sweep: the per-statement re-assembly defines the labels dasl invented by `equ` lines (final-pass values), one statement per `org`"]
-    return common.conclude(res, proof_problems, spec_fail, corr_fail, len(reqs) + len(sreqs) + len(b68_reqs))
+    res.coverage["cpu87c"] = part87["coverage"]
+    res.coverage["evaluations"] += part87["evaluations"]
+    res.coverage["distinct_nontrivial"] += part87["distinct"]
+    return common.conclude(res, proof_problems, spec_fail, corr_fail, len(reqs) + len(sreqs) + len(b68_reqs) + part87["evaluations"])
 
 
 def replay(args):
     d = json.load(open(args.replay))
     print(json.dumps({k: (v if len(str(v)) < 3000 else str(v)[:3000] + "...") for k, v in d.items()}, indent=1))
+    if d.get("cpu87c"):
+        return c15_87c.replay(d)
     if "image" in d and "start" in d and "dasl_text" in d and "source" not in d:
         # a single 6800 instruction of the opcode sweep
         bdir = common.repo_build("hooks")
